@@ -320,7 +320,8 @@ Definition step (bnd : list N) (s : pstate) (c : N) (last : bool) : sres :=
   | Lf => if c =? 10 then SGo (with_st s CrlfCrlf) (end_ev (ready s) last) else SErr
   | CrlfCrlf =>
       let h := c :: rhdr s in
-      let p := if c =? nth (pos s) crlfcrlf 0 then S (pos s) else O in
+      (* mismatch: restart at 1 when the byte is a CR (repair 3fc4520), else at 0 *)
+      let p := if c =? nth (pos s) crlfcrlf 0 then S (pos s) else if c =? 13 then 1%nat else O in
       if Nat.eqb p 4 then
         let hdr := rev h in
         match process_header (S (length hdr)) hdr (cur s) with
